@@ -4,7 +4,7 @@ Self-test of the machinery against the kept property-breaking changes (seeded/*/
 every change is applied to a scratch worktree of /repo (never to /repo itself), the check(s) recorded in
 meta.json `caught_by` are run against that worktree (PYTHONPATH + VERIF_ALLOW_REPO) and must exit 1.
 One lane per property (its changes one after the other, each lane in its own worktree), lanes in parallel.
-Evidence files written by these runs describe MUTATED trees: they are restored from git afterwards.
+Evidence and replay files of these runs (they describe MUTATED trees) go to /tmp/selftest_seeded/out/<change>/.
 
 usage: tools/selftest_seeded.py [-j LANES] [ids ...]        (ids: property ids or seeded directory names)
 """
@@ -30,7 +30,7 @@ def lane(pid, dirs):
         for d in dirs:
             name = os.path.basename(d.rstrip('/'))
             meta = json.load(open(os.path.join(d, 'meta.json')))
-            sh('git -C %s checkout -q -- .' % wt)
+            sh('git -C %s reset -q --hard HEAD' % wt)
             a = sh('git -C %s apply %s' % (wt, os.path.join(d, 'patch.diff')))
             if a.returncode != 0:
                 a = sh('git -C %s apply --3way %s' % (wt, os.path.join(d, 'patch.diff')))
@@ -40,7 +40,9 @@ def lane(pid, dirs):
             checks = [c for c in meta.get('caught_by', []) if c.startswith('C')][:1] or [meta['property']]
             for c in checks:
                 t0 = time.time()
-                env = dict(os.environ, PYTHONPATH=wt, VERIF_ALLOW_REPO=wt)
+                env = dict(os.environ, PYTHONPATH=wt, VERIF_ALLOW_REPO=wt, VERIF_EVIDENCE_DIR=os.path.join(ROOT, 'out', name),
+                           VERIF_REPLAY_DIR=os.path.join(ROOT, 'out', name))
+                os.makedirs(env['VERIF_EVIDENCE_DIR'], exist_ok=True)
                 try:
                     p = sh('./check %s' % c, cwd=VERIF, env=env, timeout=3000)
                     rc, tail = p.returncode, ' '.join(l for l in p.stdout.split('\n') if l.startswith('VIOLATION') or ' tier=' in l)[-240:]
@@ -74,7 +76,6 @@ def main():
             for name, c, rc, info in r:
                 print('%-10s %-5s rc=%-8s %s' % (name, c, rc, info), flush=True)
     sh('git -C /repo worktree prune')
-    sh('git checkout -- evidence', cwd=VERIF)
     bad = [x for x in res if x[2] != 1]
     print('SELFTEST: %d changes, %d caught (exit 1), %d not' % (len(res), len(res) - len(bad), len(bad)))
     for x in bad:
